@@ -22,7 +22,7 @@ func (c *Ctx) ownerName(t types.Type) string {
 		t = p.Elem()
 	}
 	if n, ok := types.Unalias(t).(*types.Named); ok && n.Obj().Pkg() == c.P.Types {
-		return n.Obj().Name()
+		return core.CanonType(n.Obj().Name())
 	}
 	return ""
 }
